@@ -116,9 +116,11 @@ def check(ctx, src):
     ctx.check(ok, "WITH-TEMP", f"{R}|compile_with_expression|store-every-arm",
               "the body's value is not stored into the temporary unconditionally before the With is built: on the nested arms (statement-bearing later manager, mixed sync/async) the form returns None",
               R, wf.lineno, witness="(with [a (nullcontext 1) b (do (setv z 0) (nullcontext 2))] (+ a b)) returns None", detail="cbody += Assign(name, cbody value) at top level")
-    final = pyq.contains(wf, lambda n: isinstance(n, ast.Call) and dotted(n.func) == "Result" and any(k.arg == "expr" and norm(k.value) == "expr_name" for k in n.keywords))
-    ctx.check(final is not None and not any(k.arg == "temp_variables" for k in final.keywords), "WITH-TEMP", f"{R}|compile_with_expression|not-renameable",
-              "with exposes its temporary for renaming although it initialises it before the managers are evaluated", R, wf.lineno, detail="no temp_variables")
+    exposes = [n for n in ast.walk(wf) if (isinstance(n, ast.keyword) and n.arg == "temp_variables" and not (isinstance(n.value, (ast.List, ast.Tuple)) and not n.value.elts))
+               or (isinstance(n, ast.Assign) and isinstance(n.targets[0], ast.Attribute) and n.targets[0].attr == "temp_variables" and not (isinstance(n.value, ast.List) and not n.value.elts))]
+    ctx.decide("WITH-TEMP", f"{R}|compile_with_expression|not-renameable", not exposes,
+               "with exposes its temporary for renaming although it initialises it before the managers are evaluated", R, wf.lineno,
+               witness="(setv x 1) (setv x (with [c (f x)] ...)): the initial `x = None` clobbers x before (f x) is evaluated", detail="no temp_variables")
     # nested arms recurse with the remaining managers and the same body, then break
     rec = [c for c in pyq.calls(wf) if dotted(c.func) == "compile_with_expression"]
     ctx.check(len(rec) == 2 and all(norm(c.args[-1]) == "body" for c in rec), "WITH-TEMP", f"{R}|compile_with_expression|nesting",
